@@ -99,6 +99,16 @@ pub struct MonState {
 
 /// queries an instant before a transaction executes: what the monitors compare the execution with (taken by the
 /// runner itself, so that a replay recomputes them)
+/// start of epoch `id` in nanoseconds, computed from the epoch manager's configuration with checked arithmetic
+/// (the `Epoch {id}` query itself PANICS inside `Timestamp::from_seconds` for ids far in the future, and a panic inside
+/// a cw-multi-test query would take the harness down); `None` = not representable = unimaginably far in the future
+fn epoch_start_ns(h: &Hist, id: u64) -> Option<u64> {
+    let c: mantra_dex_std::epoch_manager::ConfigResponse = h.w.app.wrap()
+        .query_wasm_smart(h.w.a("em"), &mantra_dex_std::epoch_manager::QueryMsg::Config {}).ok()?;
+    let secs = id.checked_mul(c.epoch_config.duration.u64())?.checked_add(c.epoch_config.genesis_epoch.u64())?;
+    secs.checked_mul(1_000_000_000)
+}
+
 pub fn pre_tx_quotes(h: &Hist, ms: &mut MonState, line: &str) {
     ms.quote = None; ms.route_quote = None; ms.rewards_quote = None;
     let Some(tx) = parse_tx(line) else { return };
@@ -223,7 +233,8 @@ pub fn state_monitors(h: &Hist, ms: &mut MonState, out: &mut Vec<String>) {
             if let Some((e, t, us)) = worst { out.push(format!("mon_weights_epoch {} {} {} {}", lp, e, t, us)); }
         }
         // a user without open positions in an LP token has no weight history and (if no open position at all) no cursor
-        for u in ["u1", "u2", "u3", "u4", "owner", "out"] {
+        // (the pool manager included: it tops positions up on behalf of depositors and never owns one)
+        for u in ["u1", "u2", "u3", "u4", "owner", "out", "pm"] {
             let real = h.w.rd(lp);
             let ua = h.w.astr(u);
             let has_open = o.positions.iter().any(|p| p.open && p.receiver.as_str() == ua && p.lp_asset.denom == real);
@@ -603,6 +614,12 @@ pub fn tx_monitors(h: &Hist, ms: &mut MonState, b: &Obs, line: &str, res: &str, 
             }
             ms.rewards_quote = None;
         }
+        // C08: a position operation reaches a position only through its stored identifier: an accepted expand / close /
+        // withdraw names a position of the before-state
+        if tx.contract == "fm" && matches!(tx.kind.as_str(), "expandpos" | "closepos" | "withdrawpos") && !tx.args.is_empty() {
+            let known = b.positions.iter().any(|p| p.identifier == tx.args[0]);
+            out.push(format!("mon_pos_ident {} {}", known as u8, ok as u8));
+        }
         if tx.kind == "withdrawpos" {
             if let Some(p) = b.positions.iter().find(|p| p.identifier == tx.args[0]) {
                 let lp = h.w.cd(&p.lp_asset.denom);
@@ -623,9 +640,9 @@ pub fn tx_monitors(h: &Hist, ms: &mut MonState, b: &Obs, line: &str, res: &str, 
                         if let (Some(cur), Some(cfg)) = (b.epoch, h.w.app.wrap().query_wasm_smart::<mantra_dex_std::farm_manager::Config>(h.w.a("fm"), &mantra_dex_std::farm_manager::QueryMsg::Config {}).ok()) {
                             let mut expected: Vec<String> = vec![];
                             for f in b.farms.iter().filter(|f| f.lp_denom == p.lp_asset.denom && f.start_epoch <= cur) {
-                                let r: Result<mantra_dex_std::epoch_manager::EpochResponse, _> = h.w.app.wrap()
-                                    .query_wasm_smart(h.w.a("em"), &mantra_dex_std::epoch_manager::QueryMsg::Epoch { id: f.preliminary_end_epoch + 1 });
-                                let exp = match r { Ok(r) => f.farm_asset.amount == f.claimed_amount || r.epoch.start_time.nanos() + cfg.farm_expiration_time * 1_000_000_000 < b.now_ns, Err(_) => false };
+                                let r = f.preliminary_end_epoch.checked_add(1).and_then(|id| epoch_start_ns(h, id));
+                                let exp = f.farm_asset.amount == f.claimed_amount
+                                    || match r { Some(st) => st.saturating_add(cfg.farm_expiration_time.saturating_mul(1_000_000_000)) < b.now_ns, None => false };
                                 let o = h.w.n(f.owner.as_str());
                                 if !exp && !expected.contains(&o) { expected.push(o); }
                             }
@@ -653,11 +670,11 @@ pub fn tx_monitors(h: &Hist, ms: &mut MonState, b: &Obs, line: &str, res: &str, 
                     Some(g) => g.owner != f.owner || g.start_epoch != f.start_epoch || g.claimed_amount < f.claimed_amount,
                 };
                 if gone {
-                    let r: Result<mantra_dex_std::epoch_manager::EpochResponse, _> = h.w.app.wrap()
-                        .query_wasm_smart(h.w.a("em"), &mantra_dex_std::epoch_manager::QueryMsg::Epoch { id: f.preliminary_end_epoch + 1 });
-                    if let (Ok(r), Some(c)) = (r, cfgq.as_ref()) {
+                    let r = f.preliminary_end_epoch.checked_add(1).and_then(|id| epoch_start_ns(h, id));
+                    if let Some(c) = cfgq.as_ref() {
                         let remaining = f.farm_asset.amount.u128().saturating_sub(f.claimed_amount.u128());
-                        out.push(format!("mon_farm_autoclose {} {} {} {}", remaining, r.epoch.start_time.nanos(), c.farm_expiration_time, b.now_ns));
+                        // an end that is not representable is "never": reported as the largest instant
+                        out.push(format!("mon_farm_autoclose {} {} {} {}", remaining, r.unwrap_or(u64::MAX), c.farm_expiration_time, b.now_ns));
                     }
                 }
             }
@@ -673,7 +690,9 @@ pub fn tx_monitors(h: &Hist, ms: &mut MonState, b: &Obs, line: &str, res: &str, 
         // C11: an expansion adds exactly the attached amount and extends the end by amount / emission rate epochs
         if ok && tx.kind == "expandfarm" {
             if let (Some(f), Some(g)) = (b.farms.iter().find(|f| f.identifier == tx.args[5]), a.farms.iter().find(|f| f.identifier == tx.args[5])) {
-                let attached: u128 = tx.args[4].parse().unwrap_or(0);
+                // what was really paid in (the coins of the transaction in the farm's reward denom), not what the message declares
+                let fd = h.w.cd(&f.farm_asset.denom);
+                let attached: u128 = tx.funds.iter().filter(|c| c.0 == fd).map(|c| c.1).sum();
                 out.push(format!("mon_farm_expand {} {} {} {} {} {} {}", f.emission_rate, attached, f.preliminary_end_epoch, g.preliminary_end_epoch,
                     f.farm_asset.amount, g.farm_asset.amount, (f.emission_rate == g.emission_rate && f.start_epoch == g.start_epoch && f.owner == g.owner) as u8));
             }
